@@ -16,8 +16,10 @@ from .mirparse import Unsupported
 from .smt import SolverDisagreement
 
 VERIF = os.path.dirname(os.path.dirname(os.path.abspath(__file__)))
-EVIDENCE_DIR = os.path.join(VERIF, 'evidence')
-REPLAY_DIR = os.path.join(VERIF, 'replays')
+# development runs against a scratch copy (VERIF_REPO) must not overwrite the evidence of /repo
+_DEV = os.environ.get('VERIF_REPO', '/repo').rstrip('/') != '/repo'
+EVIDENCE_DIR = os.path.join('/tmp/verif-dev', 'evidence') if _DEV else os.path.join(VERIF, 'evidence')
+REPLAY_DIR = os.path.join('/tmp/verif-dev', 'replays') if _DEV else os.path.join(VERIF, 'replays')
 KNOWN = os.path.join(VERIF, 'known_findings.json')
 
 
